@@ -4,7 +4,7 @@
    filters: external code) is a parameter of every statement: the theorems hold for any matcher and any filter. *)
 From Coq Require Import List NArith ZArith.
 From Muscle Require Import Refl.Base Refl.Matcher Refl.Session Refl.Server Refl.Bounded Refl.BoundedSpec
-  Refl.BoundedProofs Refl.BoundedRefuted Refl.BoundedServe Refl.BoundedLoops Refl.BoundedTrav
+  Refl.BoundedProofs Refl.BoundedRefuted Refl.BoundedServe Refl.BoundedLoops Refl.BoundedTrav Refl.BoundedSound
   Refl.Tree Refl.Traverse Refl.Dispatch Refl.DispatchProofs Gen.Consts.
 Import ListNotations.
 
@@ -113,6 +113,20 @@ Theorem C07_witness_ping_answered_fuel : forall (M : MatchOps) (fx : fixes) (fue
   exists b', brun fx true fuel (evs ++ [BCmd w (BPing t)]) b = Some b' /\ delivered b' w (OPong t).
 Proof. exact @witness_ping_answered_fuel. Qed.
 Print Assumptions C07_witness_ping_answered_fuel.
+
+(* the fuelled semantics (repaired loop) is a partial function of its meaning: for ANY amount of fuel, a history that
+   returns at all returns [brun_spec]; running out of fuel is the only way to differ *)
+Theorem C07_fuelled_run_is_meaning : forall (M : MatchOps) (fx : fixes) (fuel : nat) (evs : list bevent) (b b' : bserver),
+  brun fx true fuel evs b = Some b' -> b' = brun_spec fx evs b.
+Proof. exact @brun_sound. Qed.
+Print Assumptions C07_fuelled_run_is_meaning.
+
+(* ... so, for ANY amount of fuel: whenever the run of other clients' events followed by w's ping returns, the PONG is there *)
+Theorem C07_witness_ping_answered_any_fuel : forall (M : MatchOps) (fx : fixes) (fuel : nat) (evs : list bevent) (b b' : bserver) (w : sid) (t : N),
+  serving b w -> (forall ev, In ev evs -> ev_sid ev <> w) ->
+  brun fx true fuel (evs ++ [BCmd w (BPing t)]) b = Some b' -> delivered b' w (OPong t).
+Proof. exact @witness_ping_answered_any_fuel. Qed.
+Print Assumptions C07_witness_ping_answered_any_fuel.
 
 (* non-vacuity: a reachable state with a served witness next to a client that does not read and has replies queued *)
 Example C07_serving_satisfiable : @serving tiny_ops w_state 0%N /\ ~ @serving tiny_ops w_state 1%N.
